@@ -6,7 +6,7 @@ from ..engine import Finding
 
 ID = 'C18'
 TITLE = 'decorators are transparent: same results, same signature, no double wrapping'
-LEAN_FILES = ['Basic', 'Bind', 'Cache', 'Wrap', 'WrapHist', 'Try', 'BindDriver', 'Cmp', 'BindLemmas', 'CacheLemmas', 'CacheKeyLemmas', 'WrapLemmas', 'WrapHistLemmas', 'ResDec', 'C18']
+LEAN_FILES = ['Basic', 'Bind', 'Cache', 'Wrap', 'WrapHist', 'Try', 'BindDriver', 'Cmp', 'BindLemmas', 'CacheLemmas', 'CacheKeyLemmas', 'WrapLemmas', 'WrapHistLemmas', 'WrapHistSharp', 'ResDec', 'C18']
 RULE = ('distinct protocol lines on which the implementation returned a value: a (signature, call) pair bound / called / '
         'round-tripped, a (signature, decorator stack, call) triple, a construction sequence of wrappers, or a cache history '
         '(on a cached function or through a decorator stack) with at least two calls; calls without any argument on a parameterless function are not counted')
@@ -45,6 +45,25 @@ def axis_calls():
         f_params = sig[0]
         for args, kw in valid_calls(sig):
             kw = {k: (5 if k == 'axis' else v) for k, v in kw.items()}
+            yield sig, args, kw
+
+
+# parameter names that the library itself uses for its own parameters (`getcallargs(function, ...)`, `wrapper.__call__(self, ...)`,
+# `wrapped(self, ...)`, `cache_func._key(self, ...)`, the wrapper parameters `cache`, `value`, `types`, `exc`, ...): "any function f"
+# includes functions whose parameters carry these names, and a valid call may pass them by keyword
+RESERVED = ['self', 'function', 'args', 'kwargs', 'cache', 'value', 'types', 'exc', 'callargs', 'key', 'repeat']
+
+
+def reserved_sigs():
+    for nm in RESERVED:
+        yield ([nm, 'b'], [DEFAULTS[0]], None, None)
+        yield ([nm], [], None, 'kw')
+        yield (['a', nm], [DEFAULTS[1]], 'va', None)
+
+
+def reserved_calls():
+    for sig in reserved_sigs():
+        for args, kw in valid_calls(sig):
             yield sig, args, kw
 
 
@@ -159,12 +178,12 @@ CLASSES = ['try_value', 'try_back', 'kwargs_support', 'cache_func', 'loops', 'pd
 
 def deco_params(rng, cls):
     if cls == 'try_value':
-        return dict(repeat=rng.choice([0, 0, 1, 2]), sleep=0, return_value=rng.choice([True, True, True, False]),
+        return dict(repeat=rng.choice([0, 0, 1, 2]), sleep=0, return_value=rng.choice([True, True, True, True, False, 0, None, 1, '']),   # `if self.return_value:` - truthiness
                     value=rng.choice([None, 0, 'fallback', -1]), verbose=None)
     if cls == 'loops':
         return dict(types=rng.choice([['list'], ['list', 'tuple'], ['dict', 'list']]))
     if cls == 'pd2np':
-        return dict(exc=rng.choice([[], ['zz']]))
+        return dict(exc=rng.choice([[], ['zz'], ['b'], ['a'], ['a', 'b']]))       # names of real parameters too: their int arrays are NOT converted
     return {}
 
 
@@ -390,6 +409,30 @@ def gen_stackhist(rng):
                                                     ' ndarray arguments' if arrays else '', ' raising' if 'raising' in kinds else ''), lines=[line])
 
 
+def gen_steps(rng):
+    """constructor applications BETWEEN the calls of a history: the cache dict is a wrapper parameter, so a re-wrapped cached
+    function (cache(cache(f)), cache(try_none(g1)), another decorator put on top) keeps what it has stored.  Only the newest
+    object is called; calls are valid and non-raising (scalars), with == twins"""
+    sig = rng.choice([(['a'], [], None, None), (['a', 'b'], [DEFAULTS[0]], None, None), (['a', 'b'], [DEFAULTS[0]], 'args', 'kw')])
+    calls = [(a, k) for a, k in valid_calls(sig) if (a or k) and all(n in sig[0] for n in k)]
+    pool = []
+    for _ in range(rng.choice([1, 2, 3])):
+        a, k = rng.choice(calls)
+        pool.append(([rng.choice([0, 1, 2, 2.5, True, 'x', None]) for _ in a], {n: rng.choice([0, 1, 'x']) for n in k}))
+    steps = [('wrap', 'cache_func', {})] if rng.random() < 0.7 else []
+    for _ in range(rng.choice([3, 5, 8])):
+        if rng.random() < 0.4:
+            c = rng.choice(['cache_func', 'cache_func', 'try_value', 'try_back', 'kwargs_support', 'pd2np'])
+            steps.append(('wrap', c, deco_params(rng, c)))
+        else:
+            a, k = rng.choice(pool)
+            if rng.random() < 0.2:
+                a = [float(x) if isinstance(x, int) and not isinstance(x, bool) else x for x in a]
+            steps.append(('call', list(a), dict(k)))
+    line = '(deco stackhist2 %s %s)' % (sig_enc(sig), '(L' + ''.join(' (T %s %s %s)' % (enc(x[0]), enc(x[1]), enc(x[2])) for x in steps) + ')')
+    return dict(tag='stack history with constructor applications between the calls', lines=[line])
+
+
 def generate(rng, tier):
     q = tier == 'quick'
     sigs = list(all_sigs())
@@ -407,7 +450,16 @@ def generate(rng, tier):
             ds = [(c, deco_params(rng, c))] + ([(c2, deco_params(rng, c2)) for c2 in rng.sample(CLASSES, 1)] if rng.random() < 0.5 else [])
             yield dict(tag='stack len=%d parameter-called-axis' % len(ds),
                        lines=['(deco stack %s %s %s %s)' % (sig_enc(sig), decos_enc(ds), enc(list(args)), enc(dict(kw)))])
+    nres = 0
+    for sig, args, kw in reserved_calls():
+        nres += 1
+        yield dict(tag='valid call parameter named like a library parameter (%s)' % [p for p in sig[0] if p in RESERVED][0], lines=call_lines(sig, args, kw))
+        for c in CLASSES:
+            ds = [(c, deco_params(rng, c))] + ([(c2, deco_params(rng, c2)) for c2 in rng.sample(CLASSES, 1)] if rng.random() < 0.3 else [])
+            yield dict(tag='stack len=%d parameter named like a library parameter' % len(ds),
+                       lines=['(deco stack %s %s %s %s)' % (sig_enc(sig), decos_enc(ds), enc(list(args)), enc(dict(kw)))])
     EXTRA['enumerated_valid_calls'] = len(allcalls)
+    EXTRA['valid_calls_with_reserved_parameter_names'] = nres
     EXTRA['signatures'] = len(sigs)
     # every stack of <= 3 decorators on a few calls each (valid, raising, invalid)
     per_stack = 3 if q else 30
@@ -457,6 +509,8 @@ def generate(rng, tier):
         yield gen_cache(rng, raising=rng.random() < 0.2, unhashable=True)
     for _ in range(600 if q else 12000):
         yield gen_stackhist(rng)
+    for _ in range(300 if q else 6000):
+        yield gen_steps(rng)
 
 
 # ---------------------------------------------------------------- implementation runner
@@ -531,6 +585,19 @@ def run_line(state, sx):
             r = mark(res_val(lambda: g(*args, **kw)))
             out.append((r, Counter.n))
         return 'ok ' + enc(out)
+    if op == 'stackhist2':
+        g = f
+        Counter.n = 0
+        out = []
+        for step in a[1][1:]:
+            kind = proto.dec(step[1])
+            if kind == 'wrap':
+                g = construct(proto.dec(step[2]), proto.dec(step[3]), g)
+            else:
+                args, kw = proto.dec(step[2]), proto.dec(step[3])
+                r = res_val(lambda: g(*args, **kw))
+                out.append((r, Counter.n))
+        return 'ok ' + enc(out)
     if op == 'stack':
         g = f
         for cls, params in decos_dec(a[1]):
@@ -585,7 +652,7 @@ def compare(case, i, line, ir, mr):
                     a, kw = proto.dec(calls[k][1]), proto.dec(calls[k][2])
                     f = make_fn(sig_dec(proto.parse(line)[2]))
                     return isinstance(res_val(lambda: f(*unmark(a), **unmark(kw))), tuple)
-                if any(failing(k) for k in range(j + 1)):
+                if failing(j):       # the counts part ON a raising / invalid call (a difference that first shows on a non-raising call is a violation, whatever came before)
                     return ('divergence', 'executions of a raising function differ (not pinned by the property): implementation %s, model %s' % (ir, mr))
         except Exception:
             pass
@@ -602,6 +669,8 @@ def nontrivial(line, reply):
         return len(sx[3]) > 2
     if sx[1] == 'stackhist':
         return len(sx[4]) > 2
+    if sx[1] == 'stackhist2':
+        return len(sx[3]) > 2
     return len(sx[-2]) > 1 or len(sx[-1]) > 1
 
 
@@ -639,6 +708,46 @@ def ref_key(args, kw):
     return (h(list(args)), h(dict(kw)))
 
 
+def ref_stack(ds, f, sig, args, kw):
+    """what the DOCUMENTED behaviour of a stack gives on a call with scalar arguments, written independently of the library:
+    the constructor keeps the outermost occurrence of a class; try_* catch, cache / pd2np pass scalars through, and the two
+    registered deviations: kwargs_support drops every keyword that is not a parameter name (K1 when f has **kw), loops with a
+    first argument pops a keyword called `axis` (K4).  Returns (result or ('!raised', kind), set of deviations that changed the call)"""
+    params = sig[0]
+    layers = []
+    for c, p in ds:                       # ds[0] is the innermost
+        layers = [(c2, p2) for c2, p2 in layers if c2 != c]
+        layers.append((c, p))
+    used = set()
+
+    def ev(ls, a, k):
+        if not ls:
+            return res_val(lambda: f(*a, **k))
+        (c, p), rest = ls[-1], ls[:-1]
+        if c == 'kwargs_support':
+            k2 = {n: v for n, v in k.items() if n in params}
+            if len(k2) != len(k) and sig[3]:
+                used.add('K1')
+            return ev(rest, a, k2)
+        if c == 'loops':
+            if a or (params and params[0] in k):
+                k2 = dict(k)
+                a2 = list(a) if a else [k2.pop(params[0])]
+                if 'axis' in k2:
+                    k2.pop('axis')
+                    used.add('K4')
+                return ev(rest, a2, k2)
+            return ev(rest, a, k)
+        r = ev(rest, a, k)
+        raised = isinstance(r, tuple) and len(r) == 2 and r[0] == '!raised'
+        if c == 'try_value' and raised and p.get('return_value', True):
+            return copy.copy(p.get('value'))
+        if c == 'try_back' and raised:
+            return first_arg(sig, a, k)
+        return r
+    return ev(layers, list(args), dict(kw)), used
+
+
 def laws(rng, tier, ctx):
     import pyg_base
     from pyg_base import getcallargs, call_with_callargs, getargspec
@@ -647,7 +756,8 @@ def laws(rng, tier, ctx):
     sigs = list(all_sigs())
     allcalls = [(sig, a, k) for sig in sigs for a, k in valid_calls(sig)]
     # (1) getcallargs == inspect.getcallargs and call_with_callargs round trip, on every enumerated valid call
-    for sig, args, kw in allcalls:
+    rescalls = list(reserved_calls())
+    for sig, args, kw in allcalls + rescalls:
         f = make_fn(sig)
         count += 2
         exp = inspect.getcallargs(f, *args, **kw)
@@ -656,6 +766,14 @@ def laws(rng, tier, ctx):
             yield Finding('violation', dict(tag='law-getcallargs', lines=call_lines(sig, args, kw, ('getcallargs',))),
                           'getcallargs gives %r, inspect.getcallargs %r' % (got, exp))
             continue
+        # ... also of a DECORATED f ("replicates inspect.getcallargs with support to functions within decorators")
+        wcls = rng.choice(CLASSES)
+        g = construct(wcls, deco_params(rng, wcls), f)
+        count += 1
+        gotw = res_val(lambda: getcallargs(g, *args, **kw))
+        if gotw != exp:
+            yield Finding('violation', dict(tag='law-getcallargs-decorated', lines=call_lines(sig, args, kw, ('getcallargs',)), values=[wcls]),
+                          'getcallargs(%s(f), ...) gives %r, inspect.getcallargs(f, ...) %r' % (wcls, gotw, exp))
         direct = f(*args, **kw)
         rt = res_val(lambda: call_with_callargs(f, getcallargs(f, *args, **kw)))
         if rt != direct:
@@ -663,7 +781,7 @@ def laws(rng, tier, ctx):
                           'call_with_callargs(f, getcallargs(f, ...)) gives %r, f(...) gives %r' % (rt, direct))
     # (2) transparency of every single decorator and of random stacks on every enumerated valid call; spec forwarded
     stacks = [[(c, deco_params(rng, c))] for c in CLASSES]
-    for sig, args, kw in allcalls + list(axis_calls()):
+    for sig, args, kw in allcalls + list(axis_calls()) + rescalls:
         f = make_fn(sig)
         direct = f(*args, **kw)
         for ds in stacks + [[(c, deco_params(rng, c)) for c in rng.sample(CLASSES, rng.choice([2, 3]))]]:
@@ -676,7 +794,13 @@ def laws(rng, tier, ctx):
                 yield Finding('violation', dict(tag='law-spec', lines=[line]), 'getargspec(W(f)) differs from the specification of f')
             got = res_val(lambda: g(*copy.deepcopy(args), **copy.deepcopy(kw)))
             if got != direct:
-                yield Finding('violation', dict(tag='law-transparent', lines=[line]),
+                # a known finding is recognised only when the reply IS what the documented deviation predicts (K1: f without the
+                # undeclared keywords, K4: f without the keyword `axis`); any other wrong reply on such a line stays a plain violation
+                pred, used = ref_stack(ds, f, sig, args, kw)
+                tag = 'law-transparent'
+                if used and got == pred:
+                    tag = 'law-transparent known:' + '+'.join(sorted(used))
+                yield Finding('violation', dict(tag=tag, lines=[line]),
                               'decorated call gives %r, f gives %r' % (got, direct))
     # (2b) arguments that are not scalars: int / float ndarrays (also inside a list), namedtuples, lists, dicts - through every single
     # decorator and random stacks.  pd2np turns int arrays into float arrays before calling f (documented: "will also convert int
@@ -780,6 +904,19 @@ def laws(rng, tier, ctx):
             if not same_wrapper(twice, expect):
                 yield Finding('violation', dict(tag='law-wrap-once', lines=['(deco mk %s)' % decos_enc([(c, p)] + po + [(c, p)])]),
                               'W(chain(W(f))) = %r but W(chain(f)) = %r' % (dump(twice)[0], dump(expect)[0]))
+            # the same with DIFFERENT parameters for the two applications: the outer one wins entirely (W_p(chain(W_q f)) == W_p(chain f))
+            count += 1
+            p2 = deco_params(rng, c)
+            inner2 = construct(c, p, base)
+            plain2 = base
+            for o, pp in po:
+                inner2 = construct(o, pp, inner2)
+                plain2 = construct(o, pp, plain2)
+            twice2 = construct(c, p2, inner2)
+            expect2 = construct(c, p2, plain2)
+            if not same_wrapper(twice2, expect2):
+                yield Finding('violation', dict(tag='law-wrap-once', lines=['(deco mk %s)' % decos_enc([(c, p)] + po + [(c, p2)])]),
+                              'W_p(chain(W_q(f))) = %r but W_p(chain(f)) = %r' % (dump(twice2)[0], dump(expect2)[0]))
     # (4) try_* return the fallback exactly when f raises; try_back returns the first argument
     from pyg_base._decorators import try_value, try_back
     for sig, args, kw in allcalls:
@@ -853,24 +990,29 @@ def laws(rng, tier, ctx):
         Counter.n = 0
         seen = {}
         failing = []
+        k5_only = True
         for call in sx[3][1:]:
             wa, wk = proto.dec(call[1]), proto.dec(call[2])
             args, kw = unmark(wa), unmark(wk)
             key = ref_key(wa, wk)            # marker strings: a set / an array is the same argument iff it is spelt the same
             before = Counter.n
             got = mark(c(*args, **kw))
+            after = Counter.n
             count += 1
+            fresh = after == before + 1 and got == mark(f(*args, **kw))          # evaluated once more, the reply is f's
+            Counter.n = after
             if key in seen:
-                good = Counter.n == before and got == seen[key]
+                good = after == before and got == seen[key]
             else:
-                good = Counter.n == before + 1 and got == mark(f(*args, **kw))
-                Counter.n = before + 1
+                good = fresh
                 seen[key] = got
             if not good:
                 failing.append((wa, wk))
+                k5_only = k5_only and has_arr((wa, wk)) and fresh
         if failing:
-            # K5: the only calls that fail are repeated calls with an ndarray argument (evaluated again, by design)
-            k5 = all(has_arr(x) for x in failing)
+            # K5: the only calls that fail are repeated calls with an ndarray argument that were evaluated once more and answered
+            # with what f returns (by design); a wrong reply or another number of evaluations on such a call is NOT K5
+            k5 = k5_only
             yield Finding('violation', dict(case, tag='law-cache-ndarray' if k5 else 'law-cache'),
                           'cached function does not evaluate once per distinct combination / return the first result: %s' % enc(list(failing[0])))
     yield count
@@ -888,14 +1030,21 @@ def line_is_k4(line):
     return 'axis' in kw and (len(args) > 0 or (params and params[0] in kw))
 
 
+def _known_tag(f, kid):
+    """law (2) tags a finding `law-transparent known:K1+K4` only when the decorated call returned exactly what the documented
+    deviation predicts (`ref_stack`); the shape of the line is checked as well"""
+    tag = f.case.get('tag') or ''
+    return f.kind == 'violation' and tag.startswith('law-transparent known:') and kid in tag[len('law-transparent known:'):].split('+')
+
+
 def _k4(f):
     lines = f.case.get('lines') or []
-    return bool(lines) and f.case.get('tag') == 'law-transparent' and line_is_k4(lines[-1])
+    return bool(lines) and _known_tag(f, 'K4') and line_is_k4(lines[-1])
 
 
 def _k1(f):
     lines = f.case.get('lines') or []
-    return bool(lines) and all(line_is_k1(l) for l in lines[-1:]) and ('stack' in f.case.get('tag', '') or f.case.get('tag') == 'law-transparent')
+    return bool(lines) and _known_tag(f, 'K1') and line_is_k1(lines[-1])
 
 
 def _k6(f):
